@@ -685,8 +685,15 @@ def r05_6(ctx: Ctx, rep: Report) -> None:
                         target = fn.value.id
                     if target is None:
                         continue
+                    from .common import call_keywords, single_env as _se
+
                     kws = {k.arg: k.value for k in n.keywords if k.arg}
                     star = [k.value for k in n.keywords if k.arg is None]
+                    # **kwargs where kwargs is a local dict literal / dict(...) built in this function: its keys are explicit
+                    if star and all(isinstance(x, ast.Name) and isinstance(_se(f.node).get(x.id), (ast.Dict, ast.Call)) for x in star):
+                        full = call_keywords(n, _se(f.node))
+                        if len(full) > len(kws):
+                            kws, star = full, []
                     own_settings = [k for k, v in kws.items() if k in ("platform", "version") and src(v) in ("self._platform", "self.platform", "self.version", "self._version")]
                     if not own_settings or star:
                         continue  # not a construction on behalf of this object (or settings travel in a dict: C16/C17 key rules)
